@@ -78,10 +78,23 @@ package gonum
 
 // ---- Cholesky --------------------------------------------------------------------
 
-//@ func Implementation.Dpotf2 Implementation.Dpotrf props: C02 C07(safety)
+//@ func Implementation.Dpotrf props: C02 C07(safety)
 //@ valid flagUL(ul) && n >= 0 && lda >= max(1, n) && (n == 0 || ge(a, n, n, lda))
 //@ panics iff !valid, before-writes
 //@ writes a[i*lda+j] for i in 0..n, j in 0..n if (ul == blas.Upper && j >= i) || (ul == blas.Lower && j <= i)
+
+// Dpotf2: success means that every pivot passed the positivity test, so the diagonal of the factor
+// is positive (and not NaN); IEEE comparison semantics, square root by its sign/NaN rules.
+//@ func Implementation.Dpotf2 props: C02 C07(safety)
+//@ valid flagUL(ul) && n >= 0 && lda >= max(1, n) && (n == 0 || ge(a, n, n, lda))
+//@ panics iff !valid, before-writes
+//@ writes a[i*lda+j] for i in 0..n, j in 0..n if (ul == blas.Upper && j >= i) || (ul == blas.Lower && j <= i)
+//@ floats: ieee
+//@ option nan-axioms
+// (stated for the upper triangle: in the lower branch the column updates are strided and the solvers
+// do not separate them from the earlier diagonal cells)
+//@ ensures ul == blas.Upper && result ==> forall(t, 0, n, a[t*lda+t] > 0)
+//@ loop 1: invariant forall(t, 0, j, a[t*lda+t] > 0)
 
 //@ func Implementation.Dpotrs props: C02 C07(safety)
 //@ valid flagUL(uplo) && n >= 0 && nrhs >= 0 && lda >= max(1, n) && ldb >= max(1, nrhs) &&
@@ -627,6 +640,12 @@ package gonum
 //@ panics iff !valid, before-writes
 //@ writes d[t] for t in 0..n ; e[t] for t in 0..n-1
 //@ reads nothing
+// success means that no pivot failed the positivity test (the D of the L*D*L^T factorization is positive)
+//@ floats: ieee
+//@ ensures disjoint(d, e) && result ==> forall(k, 0, n, !(d[k] <= 0))
+//@ loop 1: invariant disjoint(d, e) ==> forall(k, 0, i, !(d[k] <= 0))
+//@ loop 2: invariant i % 4 == (n-1) % 4 && i <= n-1
+//@ invariant disjoint(d, e) ==> forall(k, 0, i, !(d[k] <= 0))
 
 //@ func Implementation.Dpttrs props: C02 C07(safety)
 //@ valid n >= 0 && nrhs >= 0 && ldb >= max(1, nrhs) &&
